@@ -147,6 +147,9 @@ func TestSim(t *testing.T) {
 			tape = NewTape(rf.Seed, rf.Run) // replay by seed
 		}
 		keep := 400
+		if os.Getenv("VERIF_FULLTRACE") != "" {
+			keep = 0
+		}
 		if dump != nil {
 			keep = 0 // the whole trace goes to the dump file
 		}
